@@ -17,3 +17,16 @@ Theorem C10_block_is_quadratic_form (R : comRingType) n m l (P A : 'M[R]_n) (B :
        + (b^T *m P *m C^T *m d + (c^T *m D^T *m d + d^T *m g%:M *m d))).
 Proof. exact: hinf_block_quad. Qed.
 Print Assumptions C10_block_is_quadratic_form.
+
+(* ---------- about the code itself: the 4 x 4 blocks that LmiEdmdHinfReg / LmiDmdcHinfReg hand to the solver in both
+   sub-problems, as REGENERATED from the source on this run (tools/gen_lmi_hinf.py -> Gen/LmiHinfGen.v; A, B, C, D are what
+   _create_ss returns for the Koopman matrix and the weight, gamma_33 / gamma_44 are gamma times the identity, the
+   constraint is `>> picos_eps`, problem B also constrains P >> picos_eps), ARE the bounded-real block above *)
+From PK Require Import BridgeLmiHinf.
+From PK.Gen Require Import LmiHinfGen.
+
+Theorem C10_generated_blocks (F : fieldType) n m l (P A : 'M[F]_n) (B : 'M[F]_(n, m)) (C : 'M[F]_(l, n)) (D : 'M[F]_(l, m)) (g : F) :
+  gen_hinf_edmd_a P A B C D g = hinf_block_mx P A B C D g /\ gen_hinf_edmd_b P A B C D g = hinf_block_mx P A B C D g
+  /\ gen_hinf_dmdc_a P A B C D g = hinf_block_mx P A B C D g /\ gen_hinf_dmdc_b P A B C D g = hinf_block_mx P A B C D g.
+Proof. exact: gen_hinf_model. Qed.
+Print Assumptions C10_generated_blocks.
